@@ -11,6 +11,14 @@ import z3
 CVC5 = "/usr/bin/cvc5"
 TIER = os.environ.get("VERIF_TIER", "quick")
 CROSS_CHECK_MS = None        # cap (ms) for the thorough tier's cvc5 cross-check of a VC z3 has already discharged; None = the VC budget
+CROSS_TIMEOUT_BUDGET_S = 90  # per family: once cross-checks that did NOT conclude have used this much time, later ones get CROSS_SHORT_MS
+CROSS_SHORT_MS = 1000        # (the cross-check never changes a verdict by timing out: the VC stays discharged by z3, the backend label says so)
+_cross_wasted = 0.0
+
+
+def reset_cross_budget():
+    global _cross_wasted
+    _cross_wasted = 0.0
 
 
 def budget_ms():
@@ -88,7 +96,14 @@ def prove(hyps, goal, timeout_ms=None, both=None):
     ms = (time.time() - t0) * 1000
     if r == z3.unsat:
         if both:
-            c = _cvc5(hyps, g, min(timeout_ms, CROSS_CHECK_MS) if CROSS_CHECK_MS else timeout_ms)
+            global _cross_wasted
+            cap = min(timeout_ms, CROSS_CHECK_MS) if CROSS_CHECK_MS else timeout_ms
+            if _cross_wasted > CROSS_TIMEOUT_BUDGET_S:
+                cap = min(cap, CROSS_SHORT_MS)
+            tc = time.time()
+            c = _cvc5(hyps, g, cap)
+            if c not in ("sat", "unsat"):
+                _cross_wasted += time.time() - tc
             if c == "sat":
                 return Verdict("undecided", "z3+cvc5", ms, reason="z3 says valid, cvc5 finds a counter-model (solver disagreement)")
             return Verdict("discharged", "z3+cvc5" if c == "unsat" else "z3", (time.time() - t0) * 1000)
